@@ -520,21 +520,15 @@ def freeList (h : Heap) : List Nat → Option Heap
     | none => none
     | some h1 => freeList h1 as
 
-/-- second loop of cif_packet_create over (entry, original name, normalised name): a separate original key for every
-    name that differs from its normal form -/
+/-- second loop of cif_packet_create, walking the entries in insertion order next to the names as given: an entry whose
+    name differs from its normalised form (= its key, which it still aliases as original key) gets a separate original
+    key.  This is `entryRespell` on an entry with `key_orig == key`: nothing is released. -/
 def setOrigs (g : Heap) : List (Nat × Str × Str) → Option Heap
   | [] => some g
-  | (e, orig, nk) :: rest =>
-    if orig = nk then setOrigs g rest
-    else
-      match alloc g (.str orig) with
-      | (koa, g1) =>
-        match read g1 e with
-        | some (.entry hv ka _) =>
-          match write g1 e (.entry hv ka koa) with
-          | none => none
-          | some g2 => setOrigs g2 rest
-        | _ => none
+  | (e, orig, _) :: rest =>
+    match entryRespell false g e orig with
+    | none => none
+    | some g1 => setOrigs g1 rest
 
 /-- `cif_packet_create(&p, names)` (after the repair c571e89) for names given as `(original, normalised)`: the array of
     normalised names, the normalised strings, the packet block, the entries (`addEntries`); on a duplicate everything is
